@@ -134,10 +134,31 @@ package cache
 //@   pure
 //@   ensures result1 == nil ==> result0 != nil
 
-// ASSUMED: no file is larger than 2^62 bytes.
+// ASSUMED: no file is larger than 2^47 bytes (128 TiB).
 //@ iface (io/fs.FileInfo).Size(fi)
 //@   pure
-//@   ensures 0 <= result && result <= B62()
+//@   ensures 0 <= result && result <= 140737488355328
+
+// The zstd codec is ASSUMED: nothing is known about its outputs except that an
+// error and a nil reader go together; it does not touch memory of the caller.
+//@ iface (github.com/buchgr/bazel-remote/v2/cache/disk/zstdimpl.ZstdImpl).DecodeAll(z, in)
+//@   pure
+//@ iface (github.com/buchgr/bazel-remote/v2/cache/disk/zstdimpl.ZstdImpl).EncodeAll(z, src, dst)
+//@   pure
+//@ iface (github.com/buchgr/bazel-remote/v2/cache/disk/zstdimpl.ZstdImpl).GetDecoder(z, in)
+//@   pure
+//@   ensures (result1 == nil) <==> (result0 != nil)
+//@ iface (github.com/buchgr/bazel-remote/v2/cache/disk/zstdimpl.ZstdImpl).GetEncoder(z, out)
+//@   pure
+//@   ensures (result1 == nil) <==> (result0 != nil)
+
+//@ extern io.MultiReader(readers)
+//@   pure
+//@   ensures result != nil
+
+//@ extern io.ReadFull(r, buf)
+//@   modifies elems(buf)
+//@   ensures 0 <= result0 && result0 <= len(buf) && (result1 == nil ==> result0 == len(buf))
 
 //@ extern path.Join(elem)
 //@   pure
